@@ -116,6 +116,15 @@ PROPS = {
                        "and whatever setting the cache entries were made under. Nothing is proved: the property quantifies over histories "
                        "of whole programs and over configurations of whole runs, on which function contracts are silent",
     },
+    "C21": {
+        "level": "exploration",
+        "explanation": "bounded contract on the real records walk: for catalogue and rewrite-target programs the task records of "
+                       "__frisky_graph__() / __frisky_records_chunks__() are declined or complete and well-formed (no dangling dependency, "
+                       "output keys defined, every TaskRef declared as a dependency), and an in-process executor ordering records by their "
+                       "declared deps computes the block values of __dask_graph__(); pairs walked with a shared `seen` set form one "
+                       "complete graph. The native extension is not built, so every layer goes through the generic GraphRecordsLayer "
+                       "translation; binary layer chunks are never produced here and are not covered. Nothing is proved",
+    },
     "C23": {
         "level": "exploration",
         "frame": ["rngreads"],
